@@ -123,3 +123,11 @@ Example C06_example :
   graph_eqb Z.eqb (fst (run true repaired (init 3) [AddEdge 0 1 7 false; AddEdge 2 2 5 false; AddEdge 1 0 1 false; RemoveEdge 1 0]))
                   (fst (run true repaired (init 2) [AddEdge 1 1 9 false; Resize 3; AddEdge 2 2 5 false; RemoveVertex 1; AddEdge 0 1 3 false; SetLabel 0 1 7 false])) = Val true.
 Proof. vm_compute. reflexivity. Qed.
+
+(* non-vacuity of the transitivity theorems: three different histories of one graph, pairwise equal *)
+Example C06_trans_example :
+  let g1 := fst (run true repaired (init 3) [AddEdge 0 1 7 false; AddEdge 2 2 5 false; AddEdge 1 0 1 false; RemoveEdge 1 0]) in
+  let g2 := fst (run true repaired (init 2) [AddEdge 1 1 9 false; Resize 3; AddEdge 2 2 5 false; RemoveVertex 1; AddEdge 0 1 3 false; SetLabel 0 1 7 false]) in
+  let g3 := fst (run true repaired (init 3) [AddEdge 2 2 5 false; AddEdge 0 1 7 false; AddEdge 0 1 8 false]) in
+  graph_eqb Z.eqb g1 g2 = Val true /\ graph_eqb Z.eqb g2 g3 = Val true /\ graph_eqb Z.eqb g1 g3 = Val true.
+Proof. vm_compute. auto. Qed.
